@@ -41,6 +41,32 @@ Definition expect (d : token) (ts : list token) : outcome (list token) :=
   | t :: r => if token_eqb t d then Ok r else Err "unexpected token"
   end.
 
+(* ------------------------------------------------------------ the end of the input
+   decodeRoot (fix: trailing data) calls Token() once more after the top-level value and accepts
+   io.EOF only.  The tokenizer model [lex] stops at the first failing Token() call; [lex_tail] is the
+   input left at that point, and the failure is io.EOF exactly when only white space is left
+   (Json.token_call: [skip_ws s = []]); a stray ']' / '}' / ',' or an incomplete literal is a
+   syntax error, io.ErrUnexpectedEOF included. *)
+Fixpoint lex_tail_go (fuel : nat) (st : tstate) (stack : list tstate) (s : bytes) : bytes :=
+  match fuel with
+  | O => s
+  | S f =>
+    match token_call st stack s with
+    | TokFail _ => s
+    | TokOk _ st' stack' rest => lex_tail_go f st' stack' rest
+    end
+  end.
+Definition lex_tail (bs : bytes) : bytes := lex_tail_go (S (length bs)) StTop [] bs.
+Definition lex_at_eof (bs : bytes) : bool :=
+  match skip_ws (lex_tail bs) with [] => true | _ :: _ => false end.
+
+(* [rest]: the tokens after the top-level value; [at_eof]: the tokenizer stopped at io.EOF *)
+Definition end_of_input (rest : list token) (at_eof : bool) : outcome unit :=
+  match rest with
+  | [] => if at_eof then Ok tt else Err "invalid character after top-level value"
+  | _ :: _ => Err "unexpected data after top-level value"
+  end.
+
 (* propSet.buildValue: walk the proto path, Mutable() on every intermediate
    message, then run [k] on the message that holds the final field *)
 Fixpoint with_holder {A} (path : list N) (m : msg) (k : N -> msg -> outcome (msg * A)) : outcome (msg * A) :=
@@ -538,12 +564,34 @@ Section Decode.
           obind (expect TCloseObj (snd sr)) (fun _ => Ok (fst sr))))
     | _ => Err "unsupported root schema type"
     end.
+
+  (* the same, with the tokens left after the root's closing brace *)
+  Definition decode_tokens_rest (fuel : nat) (root : bytes) (ts : list token) : outcome (msg * list token) :=
+    match lookup e root with
+    | Some (SObject props) =>
+      obind (expect TOpenObj ts) (fun r =>
+        obind (object_body fuel 0 props r [] []) (fun sr =>
+          obind (expect TCloseObj (snd sr)) (fun r2 => Ok (fst sr, r2))))
+    | Some (SOneof props) =>
+      obind (expect TOpenObj ts) (fun r =>
+        obind (oneof_body fuel 0 props r [] [] [] None) (fun sr =>
+          obind (expect TCloseObj (snd sr)) (fun r2 => Ok (fst sr, r2))))
+    | _ => Err "unsupported root schema type"
+    end.
 End Decode.
 
-(* Codec.JSONToProto(bytes, fresh message of the root type) *)
+(* decodeObject / decodeOneof on the root of a fresh message: the descent of decodeRoot, BEFORE its
+   end-of-input check (whatever follows the root's closing brace is not looked at) *)
 Definition decode_bytes (orc : oracles) (e : env) (root : bytes) (bs : bytes) : outcome msg :=
   let '(ts, more_at_end) := lex bs in
   decode_tokens orc e more_at_end (S (length ts)) root ts.
+
+(* Codec.JSONToProto(bytes, fresh message of the root type) = decodeRoot: the descent, then Token()
+   must answer io.EOF *)
+Definition decode_document (orc : oracles) (e : env) (root : bytes) (bs : bytes) : outcome msg :=
+  let '(ts, more_at_end) := lex bs in
+  obind (decode_tokens_rest orc e more_at_end (S (length ts)) root ts) (fun mr =>
+    obind (end_of_input (snd mr) (lex_at_eof bs)) (fun _ => Ok (fst mr))).
 
 (* ------------------------------------------------------------ code facts the model relies on
    (compared with gen/SwitchGen.v, which is read from the Go AST on every run) *)
@@ -628,4 +676,26 @@ Definition reviewed_panic_sites : list (string * string * string * string) := [
    "the reflector creates an AnyField schema only for google.protobuf.Any and j5.types.any.v1.Any (wktSchema)");
   ("lib/j5reflect/type_array.go", "newLeafArrayField", """list value is nil for leaf""",
    "the list comes from Message.Mutable on a repeated field, which is never nil")
+].
+
+(* Every type assertion WITHOUT the comma-ok form in the same files (the translator lists them as
+   SwitchGen.unchecked_type_assertions): a failing one is a runtime panic "interface conversion", i.e.
+   an implicit panic site that the model's total functions cannot show.  Reviewed: (file, function,
+   expression, why it cannot fail on the decode path).  proofs/CodecDecProofs.v requires every site
+   the translator finds to be listed here. *)
+Definition reviewed_type_assertions : list (string * string * string * string) := [
+  ("lib/j5reflect/type_array.go", "newLeafArrayField", "schema.Schema.(*j5schema.ScalarSchema)",
+   "inside the arm `case *j5schema.ScalarSchema` of a type switch on the same expression");
+  ("lib/j5reflect/type_object.go", "NewContainerElement", "field.NewElement().(ObjectField)",
+   "arrayOfObjectField is built by newMessageArrayField only for an item schema of *j5schema.ObjectField, whose factory (objectFieldFactory) builds an ObjectField; not called by the decoder (it uses NewObjectElement)");
+  ("lib/j5reflect/type_object.go", "NewObjectElement", "field.NewElement().(ObjectField)",
+   "arrayOfObjectField: the element factory chosen with the wrapper type by the same type switch on the item schema builds an ObjectField");
+  ("lib/j5reflect/type_object.go", "NewObjectElement", "val.(ObjectField)",
+   "mapOfObjectField: same pairing of wrapper type and element factory in newMessageMapField");
+  ("lib/j5reflect/type_oneof.go", "NewContainerElement", "field.NewElement().(OneofField)",
+   "arrayOfOneofField: item schema *j5schema.OneofField, factory builds a OneofField; not called by the decoder");
+  ("lib/j5reflect/type_oneof.go", "NewOneofElement", "field.NewElement().(OneofField)",
+   "arrayOfOneofField: wrapper type and element factory chosen by the same type switch");
+  ("lib/j5reflect/type_oneof.go", "NewOneofElement", "val.(OneofField)",
+   "mapOfOneofField: same pairing in newMessageMapField")
 ].
